@@ -363,6 +363,43 @@ def genfolder_case(draw):
     return {"src": "genfolder", "spec": c["spec"], "n_variants": n, "ops": ops, "sched_len": n, "state_digest": True}
 
 
+@st.composite
+def multibot_case(draw):
+    """Three or four hosts of one LAN each run a repeating dos-bot that is fully configured in the scenario file (different
+    trial odds), next to a database server and a periodic red agent: everything that (re)starts applications draws from
+    the one seeded stream, so the ORDER in which nodes are visited at reset / per step must follow the scenario, not
+    uuids. Two episodes after the same reset(seed=s), then eight short ones with other seeds."""
+    c = draw(gen_case_strategy(max_ops=4, families=("LAN",), allow_off=False, max_hosts=5))
+    sp = c["spec"]
+    hosts = sp["zones"][0]
+    while len(hosts) < 4:
+        hosts.append(dict(hosts[-1]))
+    hosts[0].update(kind="server", sw=["db"], off=False)
+    for h in hosts[1:]:
+        h.update(kind="computer", sw=sorted(set(draw(st.lists(st.sampled_from(["dbc", "browser", "dnsc"]), max_size=1))) | {"dos"}), off=False)
+    # a bot draws again at every (re)start only while its previous trial succeeded: odds high enough to survive the
+    # construction-time trial, spread out so that swapping two bots' draws changes who carries on
+    ps = draw(st.permutations([0.75, 0.85, 0.9, 0.97]))
+    sp["dos_opts"] = [{"port_scan_p_of_success": ps[k], "repeat": True, "max_sessions": draw(st.integers(1, 4))}
+                      for k in range(4)]
+    sp["agents"]["red"] = draw(st.sampled_from(["periodic", "periodic", "none"]))
+    sp["agents"]["green"] = draw(st.integers(0, 1))
+    sp["bw"] = None
+    sp["infra_off"] = None
+    sp["max_len"] = 30
+    # what a bot did shows in the blue observation as its execution count and the target's traffic: observe both
+    sp["obs"].update(num_applications=3, app_scan=False, num_nics=1, traffic=True, num_services=2, svc_scan=False)
+    s = draw(SEEDS)
+    acts = [["step", 0] for _ in range(draw(st.integers(6, 14)))]
+    c["ops"] = [["reset", s]] + acts + [["reset", s]] + acts
+    # every further seed is another set of draws for the (re)started bots: short episodes, compared across processes
+    for s2 in draw(st.lists(SEEDS, min_size=8, max_size=8, unique=True)):
+        c["ops"] += [["reset", s2], ["step", 0], ["step", 0]]
+    c["state_digest"] = True
+    c["kind"] = "multibot"
+    return c
+
+
 def collect(strategy, n: int, seed: int) -> List[Dict]:
     from hypothesis import HealthCheck, Phase, given, seed as hseed, settings
 
@@ -399,6 +436,8 @@ def worker(ctx: Ctx):
         cases += collect(uc7_short_case(which=ctx.idx), 1, ctx.wseed * 10 + 5)
     if ctx.idx in (4, 5, 6, 7) or not q:  # probability trials decide the episode (UC2, early attack, 0 < p < 1)
         cases += collect(trial_case(), 1 if q else 2, ctx.wseed * 10 + 6)
+    if ctx.idx % 4 == 2 or not q:  # several self-starting bots share the seeded stream: visiting order matters
+        cases += collect(multibot_case(), 2 if q else 4, ctx.wseed * 10 + 8)
     chunk = 12
     for i in range(0, len(cases), chunk):
         part = cases[i:i + chunk]
